@@ -534,7 +534,7 @@ def main(tier, seed):
         if e is not None:
             run.violation("direct evaluation returns a value, the compiler reports an error", dict(rec, what="error"))
             continue
-        if code_of(r) != code_of(lit_r):
+        if not same_code(code_of(r), code_of(lit_r)):
             run.violation("the emitted code differs from the code of the program with the literal in the call's place and the definition deleted",
                           dict(rec, what="differs", literal_source=lit_m["source"], literal_code=code_of(lit_r)))
             continue
@@ -581,6 +581,28 @@ def main(tier, seed):
                        "program that has the literal in the call's place and no definition; non-trivial = a call whose value was confirmed both ways")
     run.cov["input_distribution"] = dist
     return run.finish(assumptions_text=ass, trusted_extra=TRUST)
+
+
+def same_code(a, b):
+    """equal texts, or texts that differ only in the spelling of numeric literals denoting the same
+    binary64 value (an integer beyond 2^53 reaches the operand exactly from the constexpr result and
+    through float arithmetic from a `-literal` in the source: same number on the chip)"""
+    if a == b:
+        return True
+    la, lb = a.split("\n"), b.split("\n")
+    if len(la) != len(lb):
+        return False
+    for x, y in zip(la, lb):
+        tx, ty = ic10.tokenize(x), ic10.tokenize(y)
+        if len(tx) != len(ty):
+            return False
+        for u, v in zip(tx, ty):
+            if u == v:
+                continue
+            vu, vv = ic10.literal_value(u), ic10.literal_value(v)
+            if vu is None or vv is None or float(vu) != float(vv):
+                return False
+    return True
 
 
 def split_first_arg(rest):
